@@ -60,6 +60,8 @@ def product_cases(rng, tier):
             base["mask"] = {"k": "pos", "p": p}
         if NULL in vals and EMB[base["emb"]].kind in "mM":
             pass
+        # labels "identical" under every strategy includes their order: first appearance when sort=False
+        base["sort"] = 0 if rng.random() < 0.3 else 1
         for st in strategies(rng, n, base["emb"], base["mask"]):
             c = dict(base)
             c.update(st)
